@@ -14,7 +14,7 @@ CXX := g++
 CC  := gcc
 
 SAN_plain :=
-SAN_asan  := -fsanitize=address,undefined -fno-sanitize-recover=all -D_GLIBCXX_ASSERTIONS -D_GLIBCXX_SANITIZE_VECTOR
+SAN_asan  := -fsanitize=address,undefined,float-cast-overflow -fno-sanitize-recover=all -D_GLIBCXX_ASSERTIONS -D_GLIBCXX_SANITIZE_VECTOR
 SAN_tsan  := -fsanitize=thread
 OPT_plain := -O2
 OPT_asan  := -O1
